@@ -310,7 +310,7 @@ def diff_classes(prefix, claims=False):
             ref = None
             cps[e["cp"] if e["op"] == "Checkpoint" else len(e["ops"])] = e["state"]
     if claims and last is not None and last["op"] in ("Unevict", "Pipeline") and last["p"] in evb:
-        a, b = (_flat({"claims": {"pods": {last["p"]: st["claims"]["pods"][last["p"]]}}}) for st in (evb[last["p"]], last["state"]))
+        a, b = (_flat({"claims": {"pods": {last["p"]: st["claims"]["pods"].get(last["p"], {})}}}) for st in (evb[last["p"]], last["state"]))
     elif last is None or last["op"] not in ("Rollback", "Discard") or ref is None:
         return []
     else:
